@@ -132,9 +132,9 @@ def run(prop, tier, seed, replay=None):
     from concurrent.futures import ThreadPoolExecutor
     pool = ThreadPoolExecutor(max_workers=2)   # at most two TLC runs at a time, 4 workers each
     fut = {}
-    checks = ["Nuts.core.quick.cfg", "Nuts.forge.quick.cfg", "Nuts.react.quick.cfg", "Nuts.e4.cfg", "Nuts.live.cfg"]
+    checks = ["Nuts.core.quick.cfg", "Nuts.forge.quick.cfg", "Nuts.react.quick.cfg", "Nuts.live.cfg"]
     if not quick:
-        checks += ["Nuts.core.thorough.cfg", "Nuts.forge.thorough.cfg", "Nuts.live3.cfg"]
+        checks += ["Nuts.e4.cfg", "Nuts.core.thorough.cfg", "Nuts.forge.thorough.cfg", "Nuts.live3.cfg"]
     for cfg in checks:
         fut["check", cfg] = pool.submit(tlc_ok, cfg, "prescriptive", timeout=900, coverage=(not quick and cfg.endswith("quick.cfg")))
     for fam in FAMILIES:
